@@ -9,7 +9,9 @@ Tie to the code, every run:
   * translate/gen_decode_consts re-reads the constants (thresholds, size overheads, type bytes, the
     sanitising patterns) from the Go source into coq/gen/DecodeConsts.v;
   * harness/cmd/decode serialises generated abstract bodies to the real wire formats, runs the seven exported
-    parsers and prints the ParserResponse sequence; inside Coq (vm_compute) the model's chunk list is compared
+    parsers, keeps every ParserResponse by reference until the channel is closed (as controller.doParse/doPush
+    do) and prints the response sequence as read at the END of the request (plus chunks_stable: a digest taken
+    at receive time must still hold); inside Coq (vm_compute) the model's chunk list is compared
     with the observed one (mismatches) and the specification oracle is run on the OBSERVED rows
     (spec_violations): one row per entry, in order, own stream's fingerprint, exact ts/line/value/ttl/type.
 """
@@ -95,11 +97,17 @@ def strip(c):
 
 
 def small(c):
+    """the case as written into a replay: always re-runnable (body, wseed, cache, split, ctx_ttl); the observations are
+    summarised when they are large"""
     d = strip(c)
-    s = json.dumps(d)
-    if len(s) > 20000:
-        d = {"id": c["id"], "proto": c["proto"], "class": c["class"], "wseed": c["wseed"], "note": "large case: regenerate with harness decode --seed/--n, id as given",
-             "obs_err": c["obs"]["err"], "chunks": len(c["obs"]["chunks"]), "nrows": c["nrows"]}
+    if len(json.dumps(d)) > 20000:
+        d = dict(d)
+        d["obs"] = {"err": c["obs"]["err"], "errmsg": c["obs"].get("errmsg", ""), "chunks": [], "fptab": [],
+                    "responses": len(c["obs"]["chunks"]), "rows_per_response": [len(k["ts"]) for k in c["obs"]["chunks"]],
+                    "changed_after_receive": c["obs"].get("changed_after_receive", [])}
+        if len(json.dumps(d)) > 4000000:
+            d = {"id": c["id"], "proto": c["proto"], "class": c["class"], "wseed": c["wseed"], "nrows": c["nrows"],
+                 "note": "very large case: regenerate with harness decode --seed <seed> --n <n>, id as given"}
     return d
 
 
@@ -167,6 +175,11 @@ def run_correspondence(ck, consts):
         mism += m
         viol += v
         unmod += u
+    # chunks_stable: a response already sent must not change while the parser goes on (the consumer inserts it later)
+    unstable = [c for c in cases if c["obs"].get("changed_after_receive")]
+    ck.obligation("chunks_stable: no response changed between the moment it was received and the end of the request (%d bodies with several responses)"
+                  % sum(1 for c in cases if len(c["obs"]["chunks"]) > 1), not unstable,
+                  "cases: %s" % [(c["id"], c["proto"], c["obs"]["changed_after_receive"]) for c in unstable[:10]])
     known = ck.known_findings()
     # known findings are keyed by proto+class of the generator (the specific input family)
     def finding_of(c):
@@ -193,7 +206,9 @@ def run_correspondence(ck, consts):
         for i in fresh_viol:
             c = byid[i]
             got = sum(len(k["ts"]) for k in c["obs"]["chunks"])
-            if c["obs"]["err"]:
+            if c["obs"].get("changed_after_receive"):
+                sig = "responses already sent were overwritten while the parser went on (columns read at the end of the request, as the inserting consumer does)"
+            elif c["obs"]["err"]:
                 sig = "request failed: " + c["obs"]["err"] + " (" + c["obs"].get("errmsg", "")[:80] + ")"
             elif got != c["nrows"]:
                 sig = "row count differs from the number of submitted entries"
@@ -211,6 +226,11 @@ def run_correspondence(ck, consts):
                           "cases_with_this_signature": len(cs),
                           "explanation": "spec_violation (coq/model/Decode.v) rejects the responses of the real parser: expected rows = rows_spec (entries_of body)",
                           "replay": "bin/check C03 --replay <this file>   (or: harness decode --cases <file with the case line>)"})
+    elif unstable:
+        worst = min(unstable, key=lambda c: (c["nrows"], len(json.dumps(c["body"]))))
+        ck.violation({"property": PID, "kind": "a response already sent on the parser channel changed afterwards", "proto": worst["proto"],
+                      "class": worst["class"], "case": small(worst), "changed_responses": worst["obs"]["changed_after_receive"],
+                      "replay": "bin/check C03 --replay <this file>"})
     elif fresh_mism:
         worst = min((byid[i] for i in fresh_mism), key=lambda c: (c["nrows"], len(json.dumps(c["body"]))))
         ck.violation({"property": PID, "kind": "model/implementation disagree (chunk boundaries, sizes or series rows); rows still faithful",
